@@ -302,6 +302,65 @@ def hourly_body(v, history):
     return [rec['nq'] == rec['nt'], rec['t0'] == 1, rec['t1'] == rec['nt'], rec['nt'] >= nm * 730, rec['nt'] < nm * 730 + 8760]
 
 
+def hourly_values_body(v, history, max_months):
+    """GHE.simulate(HOURLY): what reaches the superposition sum.  The identity itself is decided for _simulate_detailed (detailed_n*); here
+    the load vector handed to it must be the *rejection-positive* hourly load in W (minus the extraction load of that hour of the year,
+    year after year) on the axis 1, 2, ... hours, and the stored results must be what it returned."""
+    from ghedesigner.enums import TimestepType
+    ghe, p = make_ghe(v)
+    nm = v.integer('n_months', 1, max_months)
+    ghe.sim_params.end_month = nm
+    sym_at = {0: v.real('q_first', -1e5, 1e5), 1: v.real('q_second', -1e5, 1e5), 743: v.real('q_h743', -1e5, 1e5), 8759: v.real('q_last', -1e5, 1e5)}
+    loads = [float((h * 7) % 13 - 6) * 100.0 for h in range(8760)]
+    for j, q in sym_at.items():
+        loads[j] = q
+    given = list(loads)
+    ghe.hourly_extraction_ground_loads = loads
+    rec = {}
+    ret = ([v.real('eft_a', -50, 150), v.real('eft_b', -50, 150)], [v.real('dtb_a', -50, 50), v.real('dtb_b', -50, 50)])
+
+    def fake_detailed(q_dot, time_values, g):
+        rec['q'], rec['t'] = list(q_dot), list(time_values)
+        return ret
+    ghe._simulate_detailed = fake_detailed
+    ghe.grab_g_function = lambda b_over_h: (None, None)
+    if history == 'after_hybrid':
+        ghe.hybrid_load = NS(load=VArr([0, 0, 1.0, 2.0]), hour=VArr([0, 0, 744.0, 1416.0]))
+        ghe.simulate(TimestepType.HYBRID)
+    out = ghe.simulate(TimestepType.HOURLY)
+    q, t = rec['q'], rec['t']
+    cs = [len(q) == len(t), len(q) >= nm * 730]
+    idx = set(range(0, len(q), 97)) | {i for i in range(len(q)) if i % 8760 in sym_at} | set(range(max(0, len(q) - 3), len(q)))
+    for i in sorted(idx):
+        cs.append(q[i] == -given[i % 8760])
+        cs.append(t[i] == i + 1)
+    cs += [ghe.hp_eft is ret[0], ghe.dTb is ret[1], out[0] >= ret[0][0], out[0] >= ret[0][1], out[1] <= ret[0][0], out[1] <= ret[0][1]]
+    cs.append(len(ghe.hourly_extraction_ground_loads) >= 8760)
+    cs += [ghe.hourly_extraction_ground_loads[j] == given[j] for j in (0, 1, 2, 743, 8759)]
+    return cs
+
+
+def hourly_values_fn(history, max_months):
+    def fn(e):
+        return conj(hourly_values_body(V(e=e), history, max_months))
+    return fn
+
+
+def hourly_values_replay(history, max_months):
+    def replay(model, notes):
+        setup()
+        try:
+            try:
+                cs = hourly_values_body(V(model=dict(model, H=100.0, k=2.0, tg=18.0, rb=0.1, m=0.3, cp=4000.0, ts=1e8, N=4)), history, max_months)
+            except Exception as ex:  # noqa: BLE001
+                return True, dict(exception='%s: %s' % (type(ex).__name__, ex))
+        finally:
+            restore_shadows()
+        bad = [k for k, c in enumerate(cs) if not bool(c)]
+        return bool(bad), dict(failed_clauses=bad[:10])
+    return replay
+
+
 def hourly_fn(history):
     def fn(e):
         return conj(hourly_body(V(e=e), history))
@@ -347,5 +406,11 @@ def units(tier, seed):
     for hist in ('fresh', 'after_hybrid', 'after_hourly_longer'):
         us.append(Unit('hourly_axis_%s' % hist, hourly_fn(hist), hourly_replay(hist), setup, F[1:2],
                        'n_months: every Int 1..360 (forked); history: %s' % hist, AS, ST, max_seconds=1500, max_paths=5000))
+    for hist in ('fresh', 'after_hybrid'):
+        mm = 30 if tier == 'quick' else 120
+        us.append(Unit('hourly_values_%s' % hist, hourly_values_fn(hist, mm), hourly_values_replay(hist, mm), setup, F[1:2],
+                       'n_months: every Int 1..%d (forked); extraction loads of hours 0, 1, 743, 8759 of the year all reals in [-1e5, 1e5], the others a concrete profile; history: %s' % (mm, hist),
+                       AS, ST + ['hourly branch: _simulate_detailed -> recorder of the load vector and time axis it is handed (the sum itself: detailed_n* units)'],
+                       max_seconds=1500, max_paths=5000))
     us.append(Unit('twin_reachability', detailed_fn(2, False, twin=True), None, setup, F[:1], 'assert False must be violated', expect_cex=True))
     return us
